@@ -267,7 +267,10 @@ class FakeSession:
         self.inflight: list[Req] = []
 
     async def close(self) -> None:
+        # like aiohttp: the session refuses new requests as soon as close() starts, and close() itself takes a while
+        # (it shuts the open connections down) -- at least one iteration of the loop, `srv.close_latency` seconds if set
         self.closed = True
+        await asyncio.sleep(getattr(self.srv, 'close_latency', 0) or 0)
 
     async def _forever(self) -> None:
         await asyncio.get_running_loop().create_future()
@@ -530,13 +533,13 @@ class FakeK8s:
     def serve(self, req: Req) -> Resp:
         r = req.route; owner = req.session.owner
         if self.valid_gens is not None and req.session.gen not in self.valid_gens:
-            self.rec('srv.req', req=req.id, loop=owner, code=401, gen=req.session.gen, **r)
+            self.rec('srv.req', req=req.id, loop=owner, code=401, gen=req.session.gen, sent=req.t, **r)
             return Resp(401, status_payload(401, 'Unauthorized'))
         resp = self._serve(req)
         extra = {k: v for k, v in req.__dict__.get('info', {}).items()}
         if r.get('kind') == 'patch' and r.get('plural') in self.keep_bodies and 'pbody' not in extra:
             extra['pbody'] = copy.deepcopy(req.body)
-        self.rec('srv.req', req=req.id, loop=owner, code=resp.status, gen=req.session.gen, **r, **extra)
+        self.rec('srv.req', req=req.id, loop=owner, code=resp.status, gen=req.session.gen, sent=req.t, **r, **extra)
         return resp
 
     def _serve(self, req: Req) -> Resp:
